@@ -133,6 +133,27 @@ func VK20aEncodings() {
 	vrt.Assert(z2.UnmarshalJSON(zj) == nil && !z2.Valid(), "zero ref JSON round trip")
 }
 
+// K20a': an encoding handed to the caller stays valid while refs keep being formatted (the text
+// helpers recycle their scratch buffers through a pool; an encoding must not live in one).
+func VK20aEncodingsStable() {
+	r, other := vRef(), vRef()
+	_ = other.String() // the pool holds a recycled buffer from here on
+	b, err := r.MarshalBinary()
+	vrt.Assert(err == nil, "MarshalBinary ok")
+	j, err := r.MarshalJSON()
+	vrt.Assert(err == nil, "MarshalJSON ok")
+	txt := r.String()
+	// later formatting of other refs
+	_ = other.String()
+	_ = other.Digest()
+	_, _ = other.MarshalBinary()
+	_ = other.StringMinusOne()
+	var r2, r3 Ref
+	vrt.Assert(r3.UnmarshalBinary(b) == nil && r3 == r, "a binary encoding still decodes to its ref after other refs were formatted")
+	vrt.Assert(r2.UnmarshalJSON(j) == nil && r2 == r, "a JSON encoding still decodes to its ref after other refs were formatted")
+	vrt.Assert(txt == r.String(), "a text form stays what it was after other refs were formatted")
+}
+
 // K20a for refs of unknown hash names (incl. the legacy odd-hex form).
 func VK20aOther() {
 	r, s := vOther()
